@@ -18,6 +18,9 @@
     mac.blake2b|mac.blake2s <outlen> <key> <prog>    `Blake2b::new_keyed(outlen, key)` through `Mac`
     kdf.hkdf_extract <digest> <salt> <ikm> <prklen>
     kdf.hkdf_expand <digest> <prk> <info> <L>      `PANIC` for a PRK shorter than HashLen and for L > 255·HashLen
+    kdf.hkdf_extract_used / kdf.hkdf_expand_used <digest> <pre>[!] <salt|prk> <ikm|info> <len>
+                                            as above, but the digest object handed over is NOT fresh: `pre` was fed into it
+                                            first (`!`: and `result` was called); the RFC value must not depend on that
     kdf.pbkdf2 <prf> <pwd> <salt> <c> <dkLen>      <prf> = <digest> (HMAC) | blake2bmac_<n> | blake2smac_<n> (keyed BLAKE2 as Mac)
     kdf.scrypt <pwd> <salt> <logN> <r> <p> <dkLen>
     kdf.scrypt_params <logN> <r> <p>        `ScryptParams::new`: `ok` / `PANIC`
@@ -256,6 +259,26 @@ def hkdfExtractSpec : Handler := h4 fun dn s i l =>
     some (if sd.valid && prkLen == sd.outBytes then Hex.encode (Spec.Kdf.hkdfExtract sd.H sd.block salt ikm) else "PANIC")
   | _, _, _, _ => none
 
+/-- the digest object after `input(pre)` (and `result` into an `output_bytes()` buffer when `pre` ends in `!`) -/
+def usedDigest (e : ImplDigest) (pre : String) : Option (Option e.δ) :=
+  let fin := pre.endsWith "!"
+  let hexs := if fin then (pre.dropEnd 1).toString else pre
+  (hexArg hexs).map fun bytes =>
+    e.fresh.bind fun d => (e.D.input d bytes).bind fun d =>
+      if fin then (e.D.result d (e.D.output_bytes d)).map (·.1) else some d
+
+def hkdfExtractUsedImpl : Handler := h5 fun dn pre s i l =>
+  match implDigest dn, hexArg s, hexArg i, natArg l with
+  | some e, some salt, some ikm, some prkLen =>
+    (usedDigest e pre).map fun od => showOpt (od.bind fun d => Impl.Kdf.hkdf_extract e.D d salt ikm prkLen)
+  | _, _, _, _ => none
+
+def hkdfExpandUsedImpl : Handler := h5 fun dn pre p i l =>
+  match implDigest dn, hexArg p, hexArg i, natArg l with
+  | some e, some prk, some info, some L =>
+    (usedDigest e pre).map fun od => showOpt (od.bind fun d => Impl.Kdf.hkdf_expand e.D d prk info L)
+  | _, _, _, _ => none
+
 /-- `hkdf_expand(X::new(), prk, info, &mut [0; L])`; `PANIC` where the model refuses: `assert!(prk.len() >=
     digest.output_bytes())` (a PRK shorter than HashLen) and the `checked_add` of the block counter (L > 255·HashLen) -/
 def hkdfExpandImpl : Handler := h4 fun dn p i l =>
@@ -354,6 +377,8 @@ def ops : List OpEntry := [
   ⟨"mac.blake2s", macBlakeImpl false, macBlakeSpec false⟩,
   ⟨"kdf.hkdf_extract", hkdfExtractImpl, hkdfExtractSpec⟩,
   ⟨"kdf.hkdf_expand", hkdfExpandImpl, hkdfExpandSpec⟩,
+  ⟨"kdf.hkdf_extract_used", hkdfExtractUsedImpl, fun a => match a with | [dn, _, s, i, l] => hkdfExtractSpec [dn, s, i, l] | _ => none⟩,
+  ⟨"kdf.hkdf_expand_used", hkdfExpandUsedImpl, fun a => match a with | [dn, _, p, i, l] => hkdfExpandSpec [dn, p, i, l] | _ => none⟩,
   ⟨"kdf.pbkdf2", pbkdf2Impl, pbkdf2Spec⟩,
   ⟨"kdf.scrypt", scryptImpl, scryptSpec⟩,
   ⟨"kdf.scrypt_params", scryptParamsImpl, scryptParamsSpec⟩
